@@ -453,6 +453,10 @@ def units(tier):
         return (IA, npshim.array([0.25, 0.125, 0.0625])), kw
     U.append(Unit('mask_sift_second_layer', SIFT, 'mask_sift_second_layer', mk_msl,
                   lambda c, a, kw, r: _obl(c, 'post:one-mask_sift-per-first-level-imf', c.ghost.get('n_ms', 0) == 2), module=ES, inline=inl_support, wrap_call=call_msl))
+    # the partial-function route: get_func binds every option of the configuration AS IT IS when the callable is asked for - also the second time
+    # (the C18 units of get_func, re-run here; imported lazily, C18 builds on this module)
+    from contracts import C18
+    U += [u for u in C18.units(tier) if u.name.startswith('get_func')]
     return U
 
 
